@@ -68,7 +68,7 @@ fn main() {
             for s in 0..streams {
                 let mut input = gen::gen_stream(&mut r, target, gen::Flavor::SevenBit);
                 if s % 2 == 0 {
-                    gen_big_osc(&mut r, &mut input, ((seed % 100) * streams + s) as usize / 2 + (seed / 100) as usize * 3);
+                    gen_big_osc(&mut r, &mut input, ((seed % 100) * streams + s) as usize / 2);
                     // what follows an oversize string must be unaffected: an ordinary OSC, then more grammar
                     input.extend_from_slice(b"\x1b]0;title;x\x07ok\x1b]2;b\x1b\\");
                     let tail = gen::gen_stream(&mut r, 60, gen::Flavor::SevenBit);
